@@ -219,8 +219,11 @@ func childCrash(args []string) {
 		maxPoints, _ = strconv.Atoi(args[2])
 	}
 	r := NewRng(seed)
+	if seed%1000 == 0 {
+		crashCorpusEmptySnapshot(cout)
+	}
 	N := 1
-	if r.Intn(2) == 0 {
+	if r.Intn(5) < 2 {
 		N = 3
 	}
 	P := 1 + r.Intn(2)
@@ -527,4 +530,88 @@ func traceAt(tr []string, k int) string {
 		return tr[k-1]
 	}
 	return "idle"
+}
+
+// corpus: a follower that is down while the partition is emptied and compacted comes back: it
+// replays its own log (three items), then has to install the leader's snapshot of the *empty*
+// partition over that state. Its recovered contents must be the acknowledged history: nothing.
+func crashCorpusEmptySnapshot(out *childOut) {
+	out.Begin("crash corpus: snapshot of an emptied partition installed on a lagging replica")
+	defer out.End()
+	cl := newSimCluster(3)
+	cl.enableCrashes()
+	defer cl.Close()
+	dsId, err := cl.createDataset(1, 2, 1, 3, pb.Space_Euclidean)
+	if err != nil {
+		out.Violate("C03", "C03/setup", "dataset creation failed: "+err.Error())
+		return
+	}
+	out.Op("new 2")
+	out.Res("ok")
+	ctx := context.Background()
+	ack := func(line string, err error) bool {
+		if err != nil {
+			out.Local("%s failed: %v", line, err)
+			return false
+		}
+		out.Op("ack %s", line)
+		out.Res("ok")
+		return true
+	}
+	for i := 1; i <= 3; i++ {
+		_, e := cl.nodes[1].dmSrv.Insert(ctx, &pb.InsertRequest{DatasetId: dsId.Bytes(), Id: rid(i).Bytes(), Value: vecOf(i)})
+		if !ack(fmt.Sprintf("ins %d %d 0 -", i, i), e) {
+			return
+		}
+	}
+	lead := cl.dataset(1, dsId).VerifPartitionAt(0).Raft().VerifStatus().Lead
+	var victim uint64
+	for _, id := range cl.ids {
+		if id != lead {
+			victim = id
+		}
+	}
+	// every replica has applied the three inserts before the victim goes down
+	waitFor(5*time.Second, func() bool {
+		s, _ := contentsOf(cl, victim, dsId)
+		return strings.Count(s, ":v") == 3
+	})
+	cl.nodes[victim].ctl.kill()
+	out.Local("node %d (a follower; leader is %d) goes down holding three items", victim, lead)
+	time.Sleep(50 * time.Millisecond)
+	for i := 1; i <= 3; i++ {
+		c2, cancel := context.WithTimeout(ctx, 5*time.Second)
+		_, e := cl.nodes[lead].dmSrv.Remove(c2, &pb.RemoveRequest{DatasetId: dsId.Bytes(), Id: rid(i).Bytes()})
+		cancel()
+		if !ack(fmt.Sprintf("del %d", i), e) {
+			return
+		}
+	}
+	if e := cl.dataset(lead, dsId).VerifPartitionAt(0).Raft().VerifSnapshotNow(); e != nil {
+		out.Local("snapshot on the leader failed: %v", e)
+		return
+	}
+	out.Local("leader snapshots the empty partition and compacts its log")
+	if _, e := cl.restartNode(victim); e != nil {
+		out.Violate("C03", "C03/restart-fails", e.Error())
+		return
+	}
+	cl.injectClients(dsId)
+	var got string
+	ok := waitFor(15*time.Second, func() bool {
+		d := cl.dataset(victim, dsId)
+		if d == nil || !d.VerifPartitionAt(0).HasRaft() {
+			return false
+		}
+		st := d.VerifPartitionAt(0).Raft().VerifStatus()
+		ls := cl.dataset(lead, dsId).VerifPartitionAt(0).Raft().VerifStatus()
+		got, _ = contentsOf(cl, victim, dsId)
+		return st.Applied >= ls.Commit && st.Applied > 0 && got == "C"
+	})
+	out.Op("recover 0")
+	out.Res("%s", got)
+	if !ok {
+		out.Violate("C03", "C03/recovered-differs-after-compaction", fmt.Sprintf("a replica that was down while the partition was emptied and the log compacted, restarted and caught up by the leader's snapshot, holds [%s]; every removal had been acknowledged", got))
+	}
+	out.Nontrivial("after-compaction")
 }
